@@ -116,7 +116,19 @@ def _docstring(r: Any, fmt: str, n0: int, params: List[str], allow_param: bool, 
             elif k < .9 and cls:
                 fl.append(f"{mk('ivar', 'iv' + t)} {words(1)} {xref(t)}")
                 fplants.append(Plant('xref', t, first, first))
-            elif k < .95 and fmt == 'restructuredtext' and top:
+            elif k < .93 and fmt == 'restructuredtext' and allow_param and params and not any(ln.startswith(':Parameters:') for ln in fl):
+                # a well-formed consolidated field (bullet list, one item per parameter) with an unresolvable reference in the first
+                # paragraph of an item and in a continuation line: the item is the block that contains the problem
+                fl.append(':Parameters:')
+                item_first = len(fl)
+                pn = r.choice(params)
+                fl.append(f'    - `{pn}`: {words(2)} {xref(t)} {words(1)}')
+                fplants.append(Plant('xref', t, first, item_first))
+                if r.random() < .5:
+                    t2 = tok()
+                    fl.append(f'      {words(1)} {xref(t2)}')
+                    fplants.append(Plant('xref', t2, first, item_first + 1))
+            elif k < .95 and fmt == 'restructuredtext' and top and not any(ln.startswith(':Parameters:') for ln in fl):
                 # a consolidated field whose body is not a list
                 fl.append(':Parameters:')
                 fl.append(f'    {words(2)} cons{t}')
@@ -321,11 +333,20 @@ def _judge(res: core.Res, r: Any, fmt: str, label: str) -> None:
         for k in (0, r.choice([1, 7])):
             r.setstate(rs)
             src, plants = _module(r, fmt, k, n0)
-            path = os.path.join(base, f'mod{k}.py')
+            in_pkg = r.random() < .3
+            if in_pkg:
+                # the module lives in a package that re-exports its class and first function: they are documented under the package,
+                # their docstrings are still written in the module's file
+                os.makedirs(os.path.join(base, f'pk{k}'), exist_ok=True)
+                with open(os.path.join(base, f'pk{k}', '__init__.py'), 'w') as f:
+                    f.write(f'"""Package."""\nfrom .mod{k} import K, func0\n__all__ = ["K", "func0"]\n')
+                path = os.path.join(base, f'pk{k}', f'mod{k}.py')
+            else:
+                path = os.path.join(base, f'mod{k}.py')
             with open(path, 'w') as f:
                 f.write(src)
-            paths = [path]
-            with_sub = r.random() < .3
+            paths = [os.path.dirname(path)] if in_pkg else [path]
+            with_sub = (not in_pkg) and r.random() < .3
             if with_sub:
                 # a subclass in another file inherits K.meth's and K.attr's docstrings: problems in them are still problems of mod.py
                 paths.append(os.path.join(base, f'sub{k}.py'))
@@ -341,7 +362,9 @@ def _judge(res: core.Res, r: Any, fmt: str, label: str) -> None:
                 res.v(f'C16:run-raises:{type(e).__name__}', f'{label}: driver.main raised {e!r}', source=src, docformat=fmt)
                 return
             res.c('runs')
-            w = {'source': src, 'docformat': fmt, 'case': label, 'offset': k, 'warnings_as_errors': werr, 'with_subclass_module': with_sub}
+            w = {'source': src, 'docformat': fmt, 'case': label, 'offset': k, 'warnings_as_errors': werr, 'with_subclass_module': with_sub, 'reexported_by_package': in_pkg}
+            if in_pkg:
+                res.c('runs_with_reexport')
             log = msgs.messages(system)
             counted = [m for m in log if m[2] < 0 and not m[4]]
             # counting: the shadow counter of M-MSG, and (at the verbosity where warnings are shown) the lines actually printed
